@@ -347,26 +347,36 @@ class Rest(object):
             return {'status_false': code}
         return None
 
-    def post_attr(self, endpoint, code, value, want=None, extra=None):
+    def post_attr(self, endpoint, code, value, want=None, extra=None, human=False, nlri=None):
         """POST an UPDATE carrying attribute `code` with the JSON `value` (and the attributes of `extra`); returns the TLV of
         attribute `want or code` the implementation produced: {"hex":..} | {"refused":n} | {"raise":true}"""
-        body = {'attr': {'1': 0, '2': [], '3': '10.0.0.1', str(code): value}, 'nlri': ['10.0.0.0/8']}
+        body = {'attr': {'1': 0, '2': [], '3': '10.0.0.1', str(code): value}, 'nlri': list(nlri) if nlri else ['10.0.0.0/8']}
         if extra:
             body['attr'].update(extra)
         want = want or code
         if endpoint == 'json_to_bin':
-            sc, js = self._post('json_to_bin', body)
+            # `human`: the same endpoint with ?format=human (the octets in lines of eight, separated by blanks): put together
+            # again they are the same one message
+            sc, js = self._post('json_to_bin?format=human' if human else 'json_to_bin', body)
             if sc != 200 or js is None:
                 return {'raise': True}
             rf = self._refusal(js)
             if rf:
                 return rf
-            if not isinstance(js.get('bin'), str):
+            b = js.get('bin')
+            if human:
+                if not isinstance(b, list) or not all(isinstance(x, str) for x in b):
+                    return {'raise': True}
+                b = ''.join(b).replace(' ', '')
+            if not isinstance(b, str):
                 return {'raise': True}
             try:
-                msg = bytes.fromhex(js['bin'])
+                msg = bytes.fromhex(b)
             except ValueError:
                 return {'raise': True}
+            # one message: its length field covers exactly what was returned
+            if len(msg) < 19 or struct.unpack('!H', msg[16:18])[0] != len(msg):
+                return {'not_one_message': True, 'msg': hx(msg)}
         else:
             w = self.sim.world
             w.take_outs()
